@@ -18,6 +18,10 @@ pub struct Case {
     pub dic: DicModel,
     pub cfg: CfgModel,
     pub texts: Vec<Vec<Piece>>,
+    /// compile the user dictionaries the way `sudachi ubuild` does: against the LOADED system dictionary (with the
+    /// configured plugins set up, which may have registered parts of speech) instead of the bare system file
+    #[serde(default)]
+    pub ubuild: bool,
 }
 
 pub struct C12;
@@ -74,7 +78,9 @@ impl Property for C12 {
                 d.min_users = nu;
                 (world(d, cp.clone()), vec(pieces_long(10), 1..=4))
             })
-            .prop_map(|((dic, cfg), texts)| Case { dic, cfg, texts })
+            
+            .prop_flat_map(|x| (Just(x), prop::bool::weighted(0.3)))
+            .prop_map(|(((dic, cfg), texts), ubuild)| Case { dic, cfg, texts, ubuild })
             .boxed()
     }
     fn cases_per_shard(&self, tier: Tier) -> u32 {
@@ -106,6 +112,37 @@ impl Property for C12 {
                 return rep;
             }
         };
+        let mut compiled = compiled;
+        if case.ubuild && !dic.users.is_empty() && dic.users.len() < 15 {
+            let rebuilt = guarded(|| -> Result<Vec<Vec<u8>>, String> {
+                let base = load(&Compiled { system: compiled.system.clone(), users: vec![] }, &config).map_err(|e| format!("base: {}", e))?;
+                let mut out = Vec::new();
+                for u in &dic.users {
+                    let mut b = sudachi::dic::build::DictBuilder::new_user(&base);
+                    b.set_compile_time(fixed_time());
+                    b.read_lexicon(render_csv(u).as_bytes()).map_err(|e| format!("read_lexicon: {}", e))?;
+                    b.resolve().map_err(|e| format!("resolve: {}", e))?;
+                    let mut bytes = Vec::new();
+                    b.compile(&mut bytes).map_err(|e| format!("compile: {}", e))?;
+                    out.push(bytes);
+                }
+                Ok(out)
+            });
+            match rebuilt {
+                Ok(Ok(users)) => {
+                    compiled.users = users;
+                    rep.class("user dictionaries built against the loaded dictionary");
+                }
+                Ok(Err(_)) => {
+                    rep.class("rejected");
+                    return rep;
+                }
+                Err(p) => {
+                    rep.fail(&format!("ubuild-panic:{}", panic_site(&p)), p);
+                    return rep;
+                }
+            }
+        }
         let loaded = guarded(|| load(&compiled, &config));
         if dic.users.len() >= 15 {
             match loaded {
@@ -180,6 +217,28 @@ impl Property for C12 {
                     for w in got {
                         if w.dic() as usize != d && w.dic() != 0 {
                             rep.fail("foreign-reference", format!("dictionary {} row {}: reference {:?} leaves the dictionary", d, n, w));
+                            return rep;
+                        }
+                    }
+                }
+                // the same references when only one of the three reference fields (plus the POS) is requested
+                if d > 0 && !(e.split_a.is_empty() && e.split_b.is_empty() && e.word_structure.is_empty()) {
+                    use sudachi::dic::subset::InfoSubset;
+                    for (name, field) in [("split-a", InfoSubset::SPLIT_A), ("split-b", InfoSubset::SPLIT_B), ("word-structure", InfoSubset::WORD_STRUCTURE)] {
+                        let w1 = match lex.get_word_info_subset(id, field | InfoSubset::POS_ID) {
+                            Ok(w) => w,
+                            Err(er) => {
+                                rep.fail("word-info-subset", format!("{:?} with only {}: {}", id, name, er));
+                                return rep;
+                            }
+                        };
+                        let (got1, full) = match name {
+                            "split-a" => (w1.a_unit_split(), wi.a_unit_split()),
+                            "split-b" => (w1.b_unit_split(), wi.b_unit_split()),
+                            _ => (w1.word_structure(), wi.word_structure()),
+                        };
+                        if got1 != full {
+                            rep.fail(&format!("row-{}-subset", name), format!("dictionary {} row {} (key {:?}): {} = {:?} when requested alone, {:?} when everything is loaded", d, n, e.key, name, got1, full));
                             return rep;
                         }
                     }
@@ -275,4 +334,26 @@ impl Property for C12 {
         }
         rep
     }
+}
+
+/// reproducers of recorded findings (written by `vcheck fixtures`)
+pub fn fixtures() -> Vec<(&'static str, Case, &'static str)> {
+    let noun = pos_from_str(POS_NOUN);
+    let dic = DicModel {
+        matrix: Matrix { nl: 1, nr: 1, lines: vec![] },
+        system: vec![Entry::simple("a", 0, 0, 100, &noun)],
+        users: vec![vec![Entry::simple("u", 0, 0, 100, &pos_from_str(POS_USER1)), Entry::simple("v", 0, 0, 100, &pos_from_str(POS_USER2))]],
+    };
+    let cfg = CfgModel {
+        chardef: FileSrc::Shipped,
+        input: vec![],
+        oov: vec![OovPlugin::Simple { pos: pos_from_str(POS_PLUGIN), left: 0, right: 0, cost: 30000, user_pos: Some(true) }],
+        inhibit: None,
+        path: vec![],
+    };
+    vec![(
+        "f22-user-dictionary-built-against-loaded-dictionary.json",
+        Case { dic, cfg, texts: vec![vec![Piece::Raw("uva".into())]], ubuild: true },
+        "F22: a user dictionary compiled with DictBuilder::new_user(&loaded dictionary) (the `ubuild` flow) inherits the parts of speech that OOV plugins registered with userPOS=allow as if they were system parts of speech; when the stack is loaded its own parts of speech are shifted by that number (u reports the POS declared for v, v's POS id is out of range)",
+    )]
 }
